@@ -100,6 +100,7 @@ class Harness:
                                    step[3] if len(step) > 3 else None,
                                    step[4] if len(step) > 4 else None)
             elif op == 'clean':
+                self._twin_state = None
                 fails = self.clean()
             elif op == 'save':
                 self._save_state()
@@ -108,6 +109,7 @@ class Harness:
                 self._restore_state()
                 fails = []
             else:
+                self._twin_state = None
                 changed = self.ext(step)
                 if changed:
                     self.mutated_since_commit = True
@@ -245,6 +247,7 @@ class Harness:
         self.last_committed = sv['last_committed']
         self.last = dict(sv['last'])
         self.mutated_since_commit = sv['mutated']
+        self._twin_state = 'restored'
 
     # ---- build ---------------------------------------------------------------------------------------
     def build(self, versions, fail_at=None, crash_at=None, mode=None):
@@ -409,12 +412,16 @@ class Harness:
             n0 = len(fails)
             fails = [f for f in fails if f['clause'] not in ('C01.outcome', 'C01.tree', 'C04.answer')]
             st['stale_allowed_content_failures_ignored'] += n0 - len(fails)
+        twin_state = getattr(self, '_twin_state', None)
+        self._twin_state = 'after_failed' if (twin_state == 'restored' and not real_committed) else None
         # ---- twin bookkeeping (C02c: the build after a failed build == the same build without it)
         summary = {'outcome': _outcome_key(rret), 'tree': {k: v[:3] for k, v in post.items() if k != self.cache},
                    'cache_present': self.cache in post, 'log': [(l['inv']) for l in rctx.log]}
         if getattr(self, '_want_twin', False) and crash_at is None:
             self._twin = summary
             self._want_twin = False
+        elif mode == 'cmp_twin' and getattr(self, '_twin', None) is not None and twin_state != 'after_failed':
+            st['twin_compare_skipped_invalid_sequence'] += 1     # e.g. a shrunk scenario that lost its restore step
         elif mode == 'cmp_twin' and getattr(self, '_twin', None) is not None:
             tw = self._twin
             st['twin_compared'] += 1
